@@ -1,8 +1,8 @@
 (* Extraction of the C19 model for the correspondence check. ExtrOcamlBasic only. *)
 From V.lib Require Import Base.
-(* read-only: the independent parameter-set serialisers of C15 (used by the driver's GEN mode); imported first so
-   that the names of the C19 model win *)
-From V.c15 Require Import C15Model C15Spec C15HevcModel C15HevcSpec.
+(* the independent parameter-set serialisers of C15 (used by the driver's GEN mode), from the frozen copies
+   coq/c19/C19Gen*.v (see their banners); imported first so that the names of the C19 model win *)
+From V.c19 Require Import C19GenAvcModel C19GenAvcSpec C19GenHevcModel C19GenHevcSpec.
 From V.c19 Require Import C19BoxCodec C19BoxModel.
 From V.c19 Require Import C19Model C19RecModel C19TreeModel.
 Require Import ExtrOcamlBasic.
